@@ -379,7 +379,16 @@ CLAIMED["C03"] = {
     "weighted mixture, logW = logU - logQ -- carried through "
     "OrderedSamples.add_samples by the position maps proved in C04 "
     "(strengthened with a surjectivity clause).",
-    "note": "Also proved: ImportanceFlowProposal.compute_log_Q (2-D table "
+    "note": "Composition: ImportanceNestedSampler.initialise (with "
+    "populate_live_points: rejection loop, unit-hypercube points only, one "
+    "zero column, weight 1, count n_initial) ESTABLISHES, and every "
+    "iteration of nested_sampling_loop PRESERVES, the invariant 'C03 row "
+    "invariant for every training sample + one weight / one count / one "
+    "column per level + counts sum to the number of samples + no NaN "
+    "weight' (loop-level contract, without the independent sample set): "
+    "the preconditions of the verified pieces are met in the order the loop "
+    "calls them; the state left by the constructors is ASSUMED. "
+    "Also proved: ImportanceFlowProposal.compute_log_Q (2-D table "
     "built column by column: column 0 = initial proposal, column j = flow "
     "j-1 + Jacobian; row-wise weighted logsumexp; raises exactly in the "
     "three documented cases) and ImportanceFlowProposal.draw (rejection "
